@@ -21,6 +21,9 @@ static void onAlarm(int)
   static const char msg[] = "\nERROR: watchdog: the operation did not return within 20 s (endless loop)\n";
   ssize_t r = write(2, msg, sizeof(msg) - 1);
   (void)r;
+  // take the children along (they hold our stderr pipe and would keep the orchestrator waiting): the harness
+  // is the leader of its own process group
+  kill(0, SIGKILL);
   _exit(89);
 }
 
@@ -1008,6 +1011,7 @@ int main(int argc, char** argv)
     childPathLen = strlen(childPath);
   }
   crcInit();
+  setpgid(0, 0);
   fdBaseline = countFds();
   signal(SIGALRM, onAlarm);
   signal(SIGPIPE, SIG_IGN);
